@@ -58,6 +58,20 @@ class Gates:
             if o and o.get("kind") == "call" and atomics.atomic_class(o["term"]) == model.ATOMIC_LOAD and atomics.receiver_is_count(F, B, o["term"]):
                 ordr = atomics.ordering_of(B, o["term"]["args"][1])
                 self.loaders[b["key"]] = ordr
+        # forwarding: a function that returns another loader's result inherits its ordering
+        changed = True
+        while changed:
+            changed = False
+            for b in F.body_list:
+                if b["key"] in self.loaders:
+                    continue
+                B = cfg.Body(b)
+                o = self._ret_origin(B)
+                if o and o.get("kind") == "call":
+                    callee = atomics.callee_of(o["term"])
+                    if callee in self.loaders:
+                        self.loaders[b["key"]] = self.loaders[callee]
+                        changed = True
         for b in F.body_list:
             B = cfg.Body(b)
             d = self._ret_compare(B)
@@ -128,6 +142,58 @@ def gate_cuts(F, G, B):
                 for r in roots:
                     cuts.setdefault(r, set()).add((bi, tgt))
     return cuts
+
+
+def gate_edges_with_order(F, G, B):
+    """All edges on which `count == 1` is known for a handle derived from some argument, with the ordering of the load:
+    [(bb, target, roots, ordering)] - covers `if h.is_unique()` and the inlined `if load(h) == 1`."""
+    out = []
+    for bi, bl in enumerate(B.blocks):
+        tt = bl["term"]
+        if tt["k"] != "switch":
+            continue
+        c = B.condition(tt["discr"])
+        if not c:
+            continue
+        if "call" in c:
+            callee = atomics.callee_of(c["call"])
+            if callee in G.gates and G.gates[callee][0] != "BAD":
+                roots = set()
+                for a in c["call"]["args"]:
+                    pl = operand_place(a)
+                    if pl is not None:
+                        roots |= root_args(B, pl["l"])
+                for tgt, tv in B.switch_truth(tt).items():
+                    if tv != c["neg"]:
+                        out.append((bi, tgt, roots, G.gates[callee][0]))
+            continue
+        if c.get("op") in ("Eq", "Ne"):
+            va, vb = B.const_value(c["a"]), B.const_value(c["b"])
+            src = c["a"] if (vb == 1 and va is None) else (c["b"] if (va == 1 and vb is None) else None)
+            if src is None:
+                continue
+            o = B.origin(src)
+            if o.get("kind") != "call":
+                continue
+            t = o["term"]
+            callee = atomics.callee_of(t)
+            ordr = None
+            if callee in G.loaders:
+                ordr = G.loaders[callee]
+            elif atomics.atomic_class(t) == model.ATOMIC_LOAD and atomics.receiver_is_count(F, B, t):
+                ordr = atomics.ordering_of(B, t["args"][1])
+            else:
+                continue
+            roots = set()
+            for a in t["args"][:1]:
+                pl = operand_place(a)
+                if pl is not None:
+                    roots |= root_args(B, pl["l"])
+            for tgt, tv in B.switch_truth(tt).items():
+                eq = (tv != c["neg"]) == (c["op"] == "Eq")
+                if eq:
+                    out.append((bi, tgt, roots, ordr))
+    return out
 
 
 def reachable_without(B, cut_edges, cut_blocks, goal):
@@ -444,16 +510,48 @@ def _fresh_pointer(F, E, B, pl):
     return False
 
 
+REPLACERS = ("core::mem::replace", "core::ptr::write", "<*mut T>::write", "core::ptr::replace")
+
+
+def refresh_blocks(F, E, B, roots, depth=0):
+    """Blocks after which the handle behind one of `roots` (a `&mut Handle`) is a freshly constructed sole owner:
+    `*r = fresh`, `mem::replace(r, fresh)`, `ptr::write(r, fresh)`, or a call of a local helper that does so on every path."""
+    out = set()
+    for bi, bl in enumerate(B.blocks):
+        for s in bl["stmts"]:
+            if s["k"] == "assign" and s["lhs"]["p"] == ["deref"] and s["lhs"]["l"] in roots and s["rv"]["k"] == "use":
+                if fresh_value(F, E, B, s["rv"]["op"]):
+                    out.add(bi)
+        t = bl["term"]
+        if t["k"] != "call" or not t["args"]:
+            continue
+        callee = atomics.callee_of(t)
+        a0 = operand_place(t["args"][0])
+        if a0 is None or not (root_args(B, a0["l"]) & set(roots)):
+            continue
+        if callee in REPLACERS and len(t["args"]) >= 2 and fresh_value(F, E, B, t["args"][1]):
+            out.add(bi)
+        elif callee in F.bodies and depth < 3:
+            cb = F.body(callee)
+            if cb.get("inputs") and F.ty(cb["inputs"][0])["k"] == "ref" and F.ty(cb["inputs"][0])["mut"]:
+                CB = cfg.Body(cb)
+                inner = refresh_blocks(F, E, CB, {1}, depth + 1)
+                rets = [i for i, x in enumerate(cb["blocks"]) if x["term"]["k"] == "return"]
+                if inner and rets and not any(reachable_without(CB, set(), inner, r) for r in rets):
+                    out.add(bi)
+    return out
+
+
 def _justified(F, E, B, cuts, roots, goal_bb):
     """Every path entry -> goal passes a gate-true edge for one of `roots`, or a block that assigns a fresh handle to it."""
     cut_edges = set()
     for r in roots:
         cut_edges |= cuts.get(r, set())
-    cut_blocks = set()
-    for bi, bl in enumerate(B.blocks):
-        for s in bl["stmts"]:
-            if s["k"] == "assign" and s["lhs"]["p"] == ["deref"] and s["lhs"]["l"] in roots and s["rv"]["k"] == "use":
-                if fresh_value(F, E, B, s["rv"]["op"]):
+    cut_blocks = refresh_blocks(F, E, B, roots)
+    if False:
+        for bi, bl in enumerate(B.blocks):
+            for s in bl["stmts"]:
+                if False:
                     cut_blocks.add(bi)
     if not cut_edges and not cut_blocks:
         return False
